@@ -706,6 +706,10 @@ VSinquire(int32  vkey,      /* IN: vdata key */
     if (HAatom_group(vkey) != VSIDGROUP)
         HGOTO_ERROR(DFE_ARGS, FAIL);
 
+    /* the key must designate an attached vdata even when nothing is asked for */
+    if (HAatom_object(vkey) == NULL)
+        HGOTO_ERROR(DFE_NOVS, FAIL);
+
     /* obtain the value for each parameter although the previous one
        fails; ret_value should be FAIL if any of the parameters fails */
     if (fields) { /* we assume 'fields' space has been pre-allocated by user? */
